@@ -5,6 +5,7 @@ import (
 	"go/ast"
 	"go/token"
 	"go/types"
+	"regexp"
 	"strconv"
 	"strings"
 )
@@ -69,18 +70,19 @@ type region struct {
 }
 
 type fctx struct {
-	u       *unit
-	fd      *ast.FuncDecl
-	sig     *fsig
-	ntmp    int
-	nvar    int
-	pre     []string // bindings in front of the statement being translated
-	regions []*region
-	noOk    int             // > 0: a successful return here is outside the subset
-	fresh   map[string]bool // slice paths made by make() in this function and not copied since
-	inLoop  int
-	keys    []string // Go names of the types.UnlockKey parameters, in order
-	nplace  int
+	u          *unit
+	fd         *ast.FuncDecl
+	sig        *fsig
+	ntmp       int
+	nvar       int
+	pre        []string // bindings in front of the statement being translated
+	regions    []*region
+	noOk       int             // > 0: a successful return here is outside the subset
+	fresh      map[string]bool // slice paths made by make() in this function and not copied since
+	inLoop     int
+	keys       []string // Go names of the types.UnlockKey parameters, in order
+	nplace     int
+	elemWrites map[string]int // element assignments seen so far, by slice path
 }
 
 type val struct {
@@ -129,15 +131,24 @@ func (c *fctx) capture(f func()) []string {
 
 func (c *fctx) goType(x ast.Expr) *ty {
 	s := types.ExprString(x)
-	t, ok := goTypes[s]
+	var t *ty
+	ok := false
+	if c.u.out.mdm {
+		t, ok = mdmTypes[s]
+	}
+	if !ok {
+		t, ok = goTypes[s]
+	}
 	if !ok {
 		fail(x, "type %s is not in the type table", s)
 	}
-	if i := strings.LastIndex(s, "."); i >= 0 {
-		c.u.g.usesPkg(x, strings.TrimPrefix(s[:i], "[]"))
+	for _, m := range qualifierRe.FindAllStringSubmatch(s, -1) {
+		c.u.g.usesPkg(x, m[1])
 	}
 	return t
 }
+
+var qualifierRe = regexp.MustCompile(`\b(\w+)\.`)
 
 // path of an lvalue-like expression made of identifiers and field selections ("" otherwise)
 func pathOf(x ast.Expr) string {
@@ -231,6 +242,12 @@ func (c *fctx) expr1(x ast.Expr, e *env, want *ty, whole bool) val {
 			if ci.formOnly && !c.u.out.formation {
 				fail(x, "%s is only available to the formation validators", q)
 			}
+			if ci.mdmOnly && !c.u.out.mdm {
+				fail(x, "%s is only available to the MDM accessors", q)
+			}
+			if ci.ty.k == kInt && want != nil && want.k == kU64 {
+				return val{ci.coq, tU64}
+			}
 			return val{ci.coq, ci.ty}
 		}
 		r := c.exprRead(x.X, e)
@@ -275,12 +292,68 @@ func (c *fctx) expr1(x ast.Expr, e *env, want *ty, whole bool) val {
 			case "types.FileContractRevision", "types.FileContract":
 				c.u.g.usesPkg(x, "types")
 				return val{"zero_rev", tRev}
+			case "types.UnlockKey":
+				if c.u.out.mdm {
+					c.u.g.usesPkg(x, "types")
+					return val{"zero_ukey", tUKey}
+				}
+			case "types.Signature":
+				if c.u.out.mdm {
+					c.u.g.usesPkg(x, "types")
+					return val{"0", tSig}
+				}
 			}
 		}
 		fail(x, "composite literal %s is not supported", types.ExprString(x.Type))
 
 	case *ast.BinaryExpr:
 		return c.binary(x, e)
+
+	case *ast.SliceExpr:
+		// pd[lo:hi] / pd[lo:] / pd[:hi] on the program data (len = cap)
+		if x.Slice3 || x.Max != nil {
+			fail(x, "three-index slice")
+		}
+		d := c.exprRead(x.X, e)
+		if d.ty.k != kPData {
+			fail(x, "slice expression on %s (only the program data can be sliced)", d.ty)
+		}
+		lo, hi := val{"0", tU64}, val{"(plen " + d.t + ")", tU64}
+		if x.Low != nil {
+			lo = c.expr(x.Low, e, tU64)
+		}
+		if x.High != nil {
+			hi = c.expr(x.High, e, tU64)
+		}
+		if lo.ty.k != kU64 || hi.ty.k != kU64 {
+			fail(x, "slice bounds of type %s and %s (uint64 expected)", lo.ty, hi.ty)
+		}
+		t := c.tmp()
+		c.pre = append(c.pre, fmt.Sprintf("do %s <- pd_slice %s %s %s;", t, d.t, lo.t, hi.t))
+		return val{t, tView}
+
+	case *ast.StarExpr:
+		// *(*T)(s): the first n bytes of s as an array value
+		if call, ok := x.X.(*ast.CallExpr); ok && len(call.Args) == 1 {
+			if p, ok := call.Fun.(*ast.ParenExpr); ok {
+				if st, ok := p.X.(*ast.StarExpr); ok {
+					name := types.ExprString(st.X)
+					if dc, ok := derefConv[name]; ok && c.u.out.mdm {
+						for _, m := range qualifierRe.FindAllStringSubmatch(name, -1) {
+							c.u.g.usesPkg(x, m[1])
+						}
+						s := c.expr(call.Args[0], e, nil)
+						if s.ty.k != kView {
+							fail(x, "conversion of %s to *%s", s.ty, name)
+						}
+						t := c.tmp()
+						c.pre = append(c.pre, fmt.Sprintf("do %s <- view_array %s %d%%nat;", t, s.t, dc.n))
+						return val{t, dc.ty}
+					}
+				}
+			}
+		}
+		fail(x, "pointer dereference is only supported as *(*T)(bytes) for the array types of the conversion table")
 
 	case *ast.CallExpr:
 		return c.call(x, e, whole)
@@ -317,6 +390,9 @@ func (c *fctx) operands(x *ast.BinaryExpr, e *env) (val, val) {
 	} else {
 		l = c.expr(x.X, e, nil)
 		r = c.expr(x.Y, e, l.ty)
+	}
+	if l.ty.k == kInt && r.ty.k == kU64 && !lconst {
+		l.ty = tU64 // a named untyped constant
 	}
 	if !l.ty.same(r.ty) {
 		fail(x, "operands of %s have types %s and %s", x.Op, l.ty, r.ty)
@@ -481,6 +557,11 @@ func (u *unit) checkUCDef(at ast.Node) {
 }
 
 func (c *fctx) call(x *ast.CallExpr, e *env, whole bool) val {
+	if c.u.out.mdm {
+		if v, ok := c.mdmCall(x, e); ok {
+			return v
+		}
+	}
 	switch fn := x.Fun.(type) {
 	case *ast.Ident:
 		if e.lookup(fn.Name) != nil {
@@ -610,4 +691,38 @@ func nodeSource(g *gofile, n ast.Node) string {
 		fail(n, "%v", err)
 	}
 	return string(src[fset.Position(n.Pos()).Offset:fset.Position(n.End()).Offset])
+}
+
+// mdmCall: the call forms of the programData accessors
+func (c *fctx) mdmCall(x *ast.CallExpr, e *env) (val, bool) {
+	src := types.ExprString(x.Fun)
+	switch {
+	case src == "uint64" && len(x.Args) == 1:
+		// uint64(len(pd)) on the program data
+		if in, ok := x.Args[0].(*ast.CallExpr); ok && types.ExprString(in.Fun) == "len" && len(in.Args) == 1 && e.lookup("len") == nil && e.lookup("uint64") == nil {
+			d := c.exprRead(in.Args[0], e)
+			if d.ty.k == kPData {
+				return val{"(plen " + d.t + ")", tU64}, true
+			}
+		}
+	case src == "(*[rhp2.SectorSize]byte)" && len(x.Args) == 1:
+		c.u.g.usesPkg(x, "rhp2")
+		s := c.expr(x.Args[0], e, nil)
+		if s.ty.k != kView {
+			fail(x, "conversion of %s to a sector pointer", s.ty)
+		}
+		t := c.tmp()
+		c.pre = append(c.pre, fmt.Sprintf("do %s <- view_sector %s;", t, s.t))
+		return val{t, tSectorPtr}, true
+	case src == "binary.LittleEndian.Uint64" && len(x.Args) == 1 && e.lookup("binary") == nil:
+		c.u.g.usesPkg(x, "binary")
+		s := c.expr(x.Args[0], e, nil)
+		if s.ty.k != kView {
+			fail(x, "binary.LittleEndian.Uint64 of %s", s.ty)
+		}
+		t := c.tmp()
+		c.pre = append(c.pre, fmt.Sprintf("do %s <- view_array %s 8%%nat;", t, s.t))
+		return val{t, tU64}, true
+	}
+	return val{}, false
 }
